@@ -496,6 +496,23 @@ func traceSaved(p *Program, fn *ssa.Function, v ssa.Value, depth int) []savedVal
 				out = append(out, r...)
 			}
 			return out
+		case *ssa.Call:
+			// a struct handed back by a library function: field k of what it returns
+			g := y.Call.StaticCallee()
+			if g == nil || fnPkg(g) == nil || !IsLibPath(fnPkg(g).Pkg.Path()) || len(g.Blocks) == 0 {
+				return nil
+			}
+			var out []savedValue
+			for _, b := range g.Blocks {
+				if ret, ok := terminator(b).(*ssa.Return); ok && len(ret.Results) == 1 {
+					r := fieldOfValue(g, ret.Results[0], k, depth+1)
+					if r == nil {
+						return nil
+					}
+					out = append(out, r...)
+				}
+			}
+			return out
 		case *ssa.UnOp:
 			if y.Op == token.MUL {
 				if al, ok := y.X.(*ssa.Alloc); ok {
@@ -1241,4 +1258,406 @@ func functionUsedAsValue(p *Program, fn *ssa.Function) bool {
 		valueUseCache[p.SSA] = m
 	}
 	return m[fn]
+}
+
+// moduleFuncTable: v is a function value read out of a package-level table of
+// the module (a map, slice or array of functions, or of structs holding
+// functions) that only the package's initialisation writes, and every
+// function value that initialisation handles is a function or closure of the
+// module.  The table, and the functions it can hold.
+func moduleFuncTable(p *Program, v ssa.Value) (*ssa.Global, []*ssa.Function, bool) {
+	var g *ssa.Global
+	for d := 0; d < 8 && g == nil; d++ {
+		switch x := v.(type) {
+		case *ssa.Extract:
+			if lk, ok := x.Tuple.(*ssa.Lookup); ok && x.Index == 0 {
+				v = lk
+				continue
+			}
+		case *ssa.Lookup:
+			v = x.X
+			continue
+		case *ssa.Field:
+			v = x.X
+			continue
+		case *ssa.Index:
+			v = x.X
+			continue
+		case *ssa.Phi:
+			// `fn, ok := table[k]; if !ok { fn = fallback }` is not followed
+		case *ssa.UnOp:
+			if x.Op == token.MUL {
+				switch a := x.X.(type) {
+				case *ssa.Global:
+					g = a
+					continue
+				case *ssa.FieldAddr:
+					v = a.X
+					continue
+				case *ssa.IndexAddr:
+					v = a.X
+					continue
+				}
+			}
+		case *ssa.Global:
+			g = x
+			continue
+		case *ssa.IndexAddr:
+			v = x.X
+			continue
+		case *ssa.FieldAddr:
+			v = x.X
+			continue
+		}
+		break
+	}
+	if g == nil || g.Pkg == nil || !IsLibPath(g.Pkg.Pkg.Path()) {
+		return nil, nil, false
+	}
+	// who writes the table (or an element of it)?
+	writesTable := func(ins ssa.Instruction) bool {
+		switch x := ins.(type) {
+		case *ssa.MapUpdate:
+			if ld, ok := x.Map.(*ssa.UnOp); ok && ld.X == ssa.Value(g) {
+				return true
+			}
+		case *ssa.Store:
+			if x.Addr == ssa.Value(g) {
+				return true
+			}
+			if ia, ok := x.Addr.(*ssa.IndexAddr); ok {
+				if ia.X == ssa.Value(g) {
+					return true
+				}
+				if ld, ok := ia.X.(*ssa.UnOp); ok && ld.X == ssa.Value(g) {
+					return true
+				}
+			}
+		}
+		return false
+	}
+	var inits []*ssa.Function
+	// (the package initialiser itself is synthetic and not among p.Fns)
+	if pi := g.Pkg.Func("init"); pi != nil {
+		for _, b := range pi.Blocks {
+			for _, ins := range b.Instrs {
+				if writesTable(ins) && len(inits) == 0 {
+					inits = append(inits, pi)
+				}
+			}
+		}
+	}
+	for _, fn := range p.Fns {
+		w := false
+		for _, b := range fn.Blocks {
+			for _, ins := range b.Instrs {
+				if writesTable(ins) {
+					w = true
+				}
+			}
+		}
+		if !w {
+			continue
+		}
+		if fn.Pkg != g.Pkg || !(fn.Name() == "init" || strings.HasPrefix(fn.Name(), "init#")) {
+			return nil, nil, false
+		}
+		inits = append(inits, fn)
+	}
+	if len(inits) == 0 {
+		return nil, nil, false
+	}
+	var fns []*ssa.Function
+	seen := map[*ssa.Function]bool{}
+	for _, fn := range inits {
+		for _, b := range fn.Blocks {
+			for _, ins := range b.Instrs {
+				for _, op := range ins.Operands(nil) {
+					if op == nil || *op == nil {
+						continue
+					}
+					var f *ssa.Function
+					switch x := (*op).(type) {
+					case *ssa.Function:
+						f = x
+					case *ssa.MakeClosure:
+						f, _ = x.Fn.(*ssa.Function)
+					default:
+						continue
+					}
+					if cc := callOf(ins); cc != nil && cc.Value == *op {
+						continue // called, not stored
+					}
+					// a method expression or method value: the wrapper go/ssa
+					// makes for it stands for the method it calls
+					if f != nil && fnPkg(f) == nil && f.Synthetic != "" {
+						for _, fb := range f.Blocks {
+							for _, fi := range fb.Instrs {
+								if c2 := callOf(fi); c2 != nil && c2.StaticCallee() != nil {
+									f = c2.StaticCallee()
+								}
+							}
+						}
+					}
+					if f == nil || fnPkg(f) == nil || !IsLibPath(fnPkg(f).Pkg.Path()) {
+						if f != nil && f.Parent() != nil && fnPkg(f.Parent()) != nil && IsLibPath(fnPkg(f.Parent()).Pkg.Path()) {
+							// a closure of a module function
+						} else {
+							return nil, nil, false
+						}
+					}
+					if !seen[f] {
+						seen[f] = true
+						fns = append(fns, f)
+					}
+				}
+			}
+		}
+	}
+	// function values that are stored and are neither a function nor a closure
+	// written in place: the result of a module function that hands back a
+	// closure of its own is fine, anything else cannot be enumerated
+	for _, fn := range inits {
+		for _, b := range fn.Blocks {
+			for _, ins := range b.Instrs {
+				var val ssa.Value
+				switch x := ins.(type) {
+				case *ssa.MapUpdate:
+					val = x.Value
+				case *ssa.Store:
+					val = x.Val
+				default:
+					continue
+				}
+				for {
+					if ct, ok := val.(*ssa.ChangeType); ok {
+						val = ct.X
+						continue
+					}
+					break
+				}
+				if _, isFn := val.Type().Underlying().(*types.Signature); !isFn {
+					continue
+				}
+				switch x := val.(type) {
+				case *ssa.Function, *ssa.MakeClosure:
+				case *ssa.Const:
+					if !x.IsNil() {
+						return nil, nil, false
+					}
+				case *ssa.Call:
+					h := x.Call.StaticCallee()
+					if h == nil || fnPkg(h) == nil || !IsLibPath(fnPkg(h).Pkg.Path()) {
+						return nil, nil, false
+					}
+					for _, hb := range h.Blocks {
+						if ret, ok := terminator(hb).(*ssa.Return); ok && len(ret.Results) == 1 {
+							rv := ret.Results[0]
+							if ct, ok := rv.(*ssa.ChangeType); ok {
+								rv = ct.X
+							}
+							switch y := rv.(type) {
+							case *ssa.MakeClosure:
+								if f, ok := y.Fn.(*ssa.Function); ok && !seen[f] {
+									seen[f] = true
+									fns = append(fns, f)
+								}
+							case *ssa.Function:
+								if fnPkg(y) == nil || !IsLibPath(fnPkg(y).Pkg.Path()) {
+									return nil, nil, false
+								}
+								if !seen[y] {
+									seen[y] = true
+									fns = append(fns, y)
+								}
+							default:
+								return nil, nil, false
+							}
+						}
+					}
+				default:
+					return nil, nil, false
+				}
+			}
+		}
+	}
+	return g, fns, len(fns) > 0
+}
+
+// listElems: the values put into a slice that is built in the function itself
+// (a literal, make, append of single values, φ of such); ok is false when the
+// slice comes from anywhere else.
+func listElems(v ssa.Value) ([]ssa.Value, bool) {
+	var out []ssa.Value
+	seen := map[ssa.Value]bool{}
+	ok := true
+	var walk func(v ssa.Value, d int)
+	walk = func(v ssa.Value, d int) {
+		if v == nil || seen[v] || !ok {
+			return
+		}
+		seen[v] = true
+		if d > 12 {
+			ok = false
+			return
+		}
+		switch x := v.(type) {
+		case *ssa.Const:
+			if !x.IsNil() {
+				ok = false
+			}
+		case *ssa.Phi:
+			for _, e := range x.Edges {
+				walk(e, d+1)
+			}
+		case *ssa.MakeSlice:
+		case *ssa.Slice:
+			walk(x.X, d+1)
+		case *ssa.Alloc:
+			// an array literal or the argument array of a variadic call
+			for _, ref := range *x.Referrers() {
+				switch y := ref.(type) {
+				case *ssa.IndexAddr:
+					for _, r2 := range *y.Referrers() {
+						if st, isSt := r2.(*ssa.Store); isSt && st.Addr == ssa.Value(y) {
+							out = append(out, st.Val)
+						}
+					}
+				case *ssa.Slice, *ssa.DebugRef:
+				default:
+					ok = false
+				}
+			}
+		case *ssa.Call:
+			if _, isApp := isBuiltinCall(x, "append"); isApp {
+				walk(x.Call.Args[0], d+1)
+				walk(x.Call.Args[1], d+1)
+				return
+			}
+			ok = false
+		case *ssa.UnOp:
+			if al, isAl := x.X.(*ssa.Alloc); isAl && x.Op == token.MUL {
+				for _, ref := range *al.Referrers() {
+					if st, isSt := ref.(*ssa.Store); isSt && st.Addr == ssa.Value(al) {
+						walk(st.Val, d+1)
+					}
+				}
+				return
+			}
+			ok = false
+		default:
+			ok = false
+		}
+	}
+	walk(v, 0)
+	return out, ok
+}
+
+// localSources: v is read out of a local aggregate — an element of a list
+// built in the function, a field of a local struct, or a field of such an
+// element — and these are the values that were put there.
+func localSources(v ssa.Value) ([]ssa.Value, bool) {
+	var project func(e ssa.Value, path []int, d int) ([]ssa.Value, bool)
+	var resolve func(v ssa.Value, path []int, d int) ([]ssa.Value, bool)
+	// project: the value at the field path inside the (struct) value e
+	project = func(e ssa.Value, path []int, d int) ([]ssa.Value, bool) {
+		if len(path) == 0 {
+			return []ssa.Value{e}, true
+		}
+		if d > 10 {
+			return nil, false
+		}
+		ld, ok := e.(*ssa.UnOp)
+		if !ok || ld.Op != token.MUL {
+			return nil, false
+		}
+		al, ok := ld.X.(*ssa.Alloc)
+		if !ok {
+			return nil, false
+		}
+		var out []ssa.Value
+		for _, ref := range *al.Referrers() {
+			switch y := ref.(type) {
+			case *ssa.FieldAddr:
+				if y.Field != path[0] {
+					continue
+				}
+				for _, r2 := range *y.Referrers() {
+					if st, isSt := r2.(*ssa.Store); isSt && st.Addr == ssa.Value(y) {
+						vs, ok := project(st.Val, path[1:], d+1)
+						if !ok {
+							return nil, false
+						}
+						out = append(out, vs...)
+					}
+				}
+			case *ssa.Store:
+				if y.Addr == ssa.Value(al) {
+					vs, ok := project(y.Val, path, d+1)
+					if !ok {
+						return nil, false
+					}
+					out = append(out, vs...)
+				}
+			}
+		}
+		return out, len(out) > 0
+	}
+	resolve = func(v ssa.Value, path []int, d int) ([]ssa.Value, bool) {
+		if d > 10 {
+			return nil, false
+		}
+		switch x := v.(type) {
+		case *ssa.MakeInterface:
+			return resolve(x.X, path, d+1)
+		case *ssa.ChangeInterface:
+			return resolve(x.X, path, d+1)
+		case *ssa.Field:
+			return resolve(x.X, append([]int{x.Field}, path...), d+1)
+		case *ssa.UnOp:
+			if x.Op != token.MUL {
+				return nil, false
+			}
+			switch a := x.X.(type) {
+			case *ssa.FieldAddr:
+				// field of a local struct variable, or of an element
+				switch base := a.X.(type) {
+				case *ssa.Alloc:
+					return project(&ssa.UnOp{Op: token.MUL, X: base}, append([]int{a.Field}, path...), d+1)
+				case *ssa.IndexAddr:
+					elems, ok := listElems(base.X)
+					if !ok {
+						return nil, false
+					}
+					var out []ssa.Value
+					for _, e := range elems {
+						vs, ok := project(e, append([]int{a.Field}, path...), d+1)
+						if !ok {
+							return nil, false
+						}
+						out = append(out, vs...)
+					}
+					return out, len(out) > 0
+				}
+			case *ssa.IndexAddr:
+				elems, ok := listElems(a.X)
+				if !ok {
+					return nil, false
+				}
+				var out []ssa.Value
+				for _, e := range elems {
+					vs, ok := project(e, path, d+1)
+					if !ok {
+						return nil, false
+					}
+					out = append(out, vs...)
+				}
+				return out, len(out) > 0
+			case *ssa.Alloc:
+				return project(x, path, d+1)
+			}
+		}
+		return nil, false
+	}
+	return resolve(v, nil, 0)
 }
